@@ -2196,7 +2196,7 @@ func (g *v6Gen) history(steps int, schedules bool) {
 		g.keys = append(g.keys, k)
 		keyHex = append(keyHex, k.hex)
 	}
-	g.xkey = v6NewKeyOn("P-384")
+	g.xkey = v6NewKeyOn([]string{"P-384", "P-384", "P-521"}[g.rnd.Intn(3)])
 	keyHex = append(keyHex, g.xkey.hex)
 	subs := []v6Sub{
 		{Name: "gossip", WantTx: true, Outcome: "finished"},
@@ -2537,15 +2537,16 @@ func (g *v6Gen) history(steps int, schedules bool) {
 						// the same through a KEY ID: the key the kid denotes in the signer's DID document (as of the first prev) is
 						// on another curve than the header algorithm says — P-256 signer key with ES384/ES512, the document's
 						// P-384 key with ES256/ES512 — or fits it (ES384 + P-384: valid, must get in)
-						kc := [][2]string{{"ES384", "P-256"}, {"ES512", "P-256"}, {"ES256", "P-384"}, {"ES512", "P-384"}, {"ES384", "P-384"}, {"ES256", "P-256"}}[g.rnd.Intn(6)]
+						xc := g.xkey.crv() // P-384 or P-521
+						kc := [][2]string{{"ES384", "P-256"}, {"ES512", "P-256"}, {"ES256", xc}, {"ES512", xc}, {"ES384", xc}, {"ES256", "P-256"}}[g.rnd.Intn(6)]
 						ki := sp.signer
-						if kc[1] == "P-384" {
+						if kc[1] == xc {
 							ki = len(g.keys)
 							sp.xsigner = true
 						}
 						sp.embed, sp.kid, sp.kidCurve, sp.alg = -1, "did:nuts:c#k1", true, kc[0]
 						regDoc("did:nuts:c", sp.prevs[0], "doc", [][2]any{{"did:nuts:c#k1", ki}})
-						if (kc[0] == "ES384" && kc[1] == "P-384") || (kc[0] == "ES256" && kc[1] == "P-256") {
+						if (kc[0] == "ES384" && kc[1] == "P-384") || (kc[0] == "ES512" && kc[1] == "P-521") || (kc[0] == "ES256" && kc[1] == "P-256") {
 							note += ":(valid)kid:" + kc[0] + "+" + kc[1]
 						} else {
 							note += ":kid-alg-curve-mismatch:" + kc[0] + "+" + kc[1]
